@@ -167,6 +167,15 @@ def grid_builder(g, E, do, length):
                     cells.append(it("encrypt", params=cp is not None, cp=cp, data_hex=data, iv_hex=iv))
                     cells.append(it("decrypt", params=cp is not None, cp=cp, data_hex=data, iv_hex=iv,
                                     tag_hex="00" * 16 if cp and cp.get("mode") == 9 else None))
+        # authenticated encryption: tag lengths and nonce lengths around what the mode accepts (4..16 / 8..128 bytes)
+        for taglen in (0, 1, 3, 4, 8, 12, 16, 17, -1):
+            for ivn in (1, 7, 8, 12, 129):
+                cells.append(it("encrypt", params=True, cp={"alg": 3, "mode": 9, "taglen": taglen}, data_hex="00" * 17,
+                                iv_hex="00" * ivn))
+        for tagn in (1, 3, 4, 12, 16, 17):
+            for ivn in (1, 7, 12, 129):
+                cells.append(it("decrypt", params=True, cp={"alg": 3, "mode": 9, "taglen": 16}, data_hex="00" * 17,
+                                iv_hex="00" * ivn, tag_hex="00" * tagn))
         for cp in SIGN_MENU:
             cells.append(it("sign", params=True, cp=cp))
             cells.append(it("signatureVerify", params=True, cp=cp))
